@@ -431,6 +431,8 @@ pub struct Stepper<'a> {
     pub blocked: Vec<Blocked>,
     pub grace_ms: u64,
     /// an insert parked right after its closed-check: (call id, thread)
+    /// `Some(capacity)`: inserts wait for room in the insert buffer (fit lives)
+    pub room_first: Option<usize>,
     pub parked_insert: Option<(u64, JoinHandle<String>)>,
 }
 
@@ -439,7 +441,7 @@ impl<'a> Stepper<'a> {
         verif::clock::set_manual(start_ns);
         verif::obs_enable(true);
         verif::obs_drain();
-        Stepper { rig, out, now: start_ns, next_val: 1, next_id: 1, blocked: Vec::new(), grace_ms: 25, parked_insert: None }
+        Stepper { rig, out, now: start_ns, next_val: 1, next_id: 1, blocked: Vec::new(), grace_ms: 25, room_first: None, parked_insert: None }
     }
 
     pub fn emit(&mut self, act: &str, ans: &str) {
@@ -454,7 +456,19 @@ impl<'a> Stepper<'a> {
         self.out.line(&format!("c.clock {}", self.now));
     }
 
+    /// in a life whose premise is "the insert buffer does not overflow": make room first
+    fn make_room(&mut self) {
+        if let Some(cap) = self.room_first {
+            for _ in 0..cap + 1 {
+                if self.rig.proc_.pending().0 < cap || !self.proc_item() {
+                    break;
+                }
+            }
+        }
+    }
+
     pub fn insert(&mut self, idx: u64, conf: u64, cost: i64, ttl_ns: u64, only: bool) -> bool {
+        self.make_room();
         let v = self.next_val;
         self.next_val += 1;
         let coster = self.rig.coster.value(v);
@@ -480,6 +494,7 @@ impl<'a> Stepper<'a> {
         if self.parked_insert.is_some() {
             return;
         }
+        self.make_room();
         let v = self.next_val;
         self.next_val += 1;
         let id = self.next_id;
@@ -903,7 +918,15 @@ pub fn cache_life(out: &mut Out, rng: &mut Rng, cfg: &Config, g: &GenOpts) {
     let item = if cfg.ignore_internal { 0 } else { verif::cache_item_size(&s.rig.cache) as i64 };
     let unit = ((cfg.max_cost - 0) / 6).max(1);
     let mut closed = false;
+    // a "fit" life: whatever is asked for fits in max_cost together (every key has its own share of
+    // the budget), so nothing may ever be refused, evicted or dropped for capacity (C04's premise)
+    let share = cfg.max_cost / universe as i64 - item;
+    let fit = share >= 1 && rng.chance(1, 3);
     let fine_clock = g.w_ttl >= 50 && rng.chance(1, 2);
+    s.out.line(&format!("# life universe={} fit={} share={} fine_clock={}", universe, fit as u8, share, fine_clock as u8));
+    if fit {
+        s.room_first = Some(cfg.buf_size);
+    }
     for _ in 0..g.ops {
         let idx = rng.below(universe);
         let conf = if g.collisions { rng.range(1, 2) } else { 0 };
@@ -913,7 +936,7 @@ pub fn cache_life(out: &mut Out, rng: &mut Rng, cfg: &Config, g: &GenOpts) {
             continue;
         }
         if s.parked_insert.is_none() && rng.chance(1, 25) {
-            let cost = if rng.chance(1, 2) { 0 } else { 1 };
+            let cost = if rng.chance(1, 2) && !fit { 0 } else { 1 };
             s.insert_begin(idx, conf, cost, 0, false);
             if rng.chance(1, 3) && !closed {
                 // the interesting neighbour: a close() slipping in right here
@@ -987,6 +1010,60 @@ pub fn cache_life(out: &mut Out, rng: &mut Rng, cfg: &Config, g: &GenOpts) {
             s.get(idx, conf);
             continue;
         }
+        // expiry window on one key: the deadline passes (or is one nanosecond away) and no cleanup
+        // has run yet, then the key is looked up / written / removed (C03, C05, C08, C09 scenarios)
+        if !closed && g.w_ttl > 0 && rng.chance(1, 30) {
+            let ttl = *rng.pick(&[2u64, SEC / 2, SEC, SEC + 1]);
+            s.insert(idx, conf, 1, ttl, false);
+            s.drain();
+            let adv = match rng.below(4) {
+                0 => ttl - 1,
+                1 => ttl,
+                2 => ttl + 1,
+                _ => ttl + SEC / 3,
+            };
+            s.clock(adv);
+            for _ in 0..rng.range(1, 4) {
+                match rng.below(7) {
+                    0 => s.get(idx, conf),
+                    1 | 2 => s.get_mut(idx, conf),
+                    3 => s.get_ttl(idx, conf),
+                    4 => {
+                        s.insert(idx, conf, 1, 0, true);
+                    }
+                    5 => s.remove(idx, conf),
+                    _ => {
+                        s.insert(idx, conf, 1, *rng.pick(&[0u64, SEC]), false);
+                    }
+                }
+            }
+            if rng.chance(1, 2) {
+                s.proc_tick();
+            }
+            continue;
+        }
+        // TTL switch on one key: a re-insert changes TTL <-> no TTL (or the cost), the old deadline
+        // passes, and the key is looked up at quiescence (C03, C04, C05, C16 scenarios)
+        if !closed && g.w_ttl > 0 && rng.chance(1, 40) {
+            let ttls = [0u64, SEC / 2, SEC, 2 * SEC, 3600 * SEC];
+            let a = *rng.pick(&ttls);
+            let b = *rng.pick(&ttls);
+            let top = if fit { share as u64 } else { 9 };
+            let c1 = rng.range(1, top) as i64;
+            let c2 = rng.range(1, top) as i64;
+            s.insert(idx, conf, c1, a, false);
+            s.drain();
+            s.clock(*rng.pick(&[0u64, 1000, SEC / 4]));
+            s.insert(idx, conf, c2, b, false);
+            s.drain();
+            s.get(idx, conf);
+            s.clock(*rng.pick(&[SEC / 2, SEC, SEC + SEC / 2, 2 * SEC + 1]));
+            s.get(idx, conf);
+            s.get_ttl(idx, conf);
+            s.proc_tick();
+            s.get(idx, conf);
+            continue;
+        }
         if r2 < g.w_clear {
             s.clear();
         } else if r2 < g.w_clear + g.w_wait {
@@ -997,13 +1074,21 @@ pub fn cache_life(out: &mut Out, rng: &mut Rng, cfg: &Config, g: &GenOpts) {
         } else {
             match rng.below(20) {
                 0..=7 => {
-                    let cost = match rng.below(6) {
-                        0 => 0,
-                        1 => 1,
-                        2 => unit,
-                        3 => (cfg.max_cost - item).max(1),
-                        4 => cfg.max_cost + 1,
-                        _ => rng.range(1, (2 * unit) as u64) as i64,
+                    let cost = if fit {
+                        match rng.below(4) {
+                            0 => share,
+                            1 => 1,
+                            _ => rng.range(1, share as u64) as i64,
+                        }
+                    } else {
+                        match rng.below(6) {
+                            0 => 0,
+                            1 => 1,
+                            2 => unit,
+                            3 => (cfg.max_cost - item).max(1),
+                            4 => cfg.max_cost + 1,
+                            _ => rng.range(1, (2 * unit) as u64) as i64,
+                        }
                     };
                     let ttl = if rng.below(100) < g.w_ttl {
                         *rng.pick(&[1u64, SEC / 2, 700_000_000, SEC - 1, SEC, SEC + 1, SEC + SEC / 2, 2 * SEC, 3 * SEC + 7, 3600 * SEC])
@@ -1013,7 +1098,7 @@ pub fn cache_life(out: &mut Out, rng: &mut Rng, cfg: &Config, g: &GenOpts) {
                     s.insert(idx, conf, cost, ttl, false);
                 }
                 8 => {
-                    let cost = rng.range(0, unit as u64) as i64;
+                    let cost = if fit { rng.range(1, share as u64) as i64 } else { rng.range(0, unit as u64) as i64 };
                     s.insert(idx, conf, cost, 0, true);
                 }
                 9..=13 => s.get(idx, conf),
@@ -1021,7 +1106,7 @@ pub fn cache_life(out: &mut Out, rng: &mut Rng, cfg: &Config, g: &GenOpts) {
                 15 => s.get_ttl(idx, conf),
                 16..=17 => s.remove(idx, conf),
                 18 => {
-                    if rng.chance(1, 4) {
+                    if rng.chance(1, 4) && !fit {
                         let mc = *rng.pick(&[cfg.max_cost, cfg.max_cost / 2 + 1, cfg.max_cost * 2]);
                         s.max_cost(mc);
                     } else {
